@@ -310,6 +310,30 @@ func runC15(c *core.Ctx) {
 			c.Sample(func() interface{} { return map[string]interface{}{"part": "B", "site": site, "string": fmt.Sprintf("%q", x)} })
 		}
 	}
+	// ---- B2: number alphabet at every constant site (Float64 positions): integers, fractions, integral floats, and the
+	// magnitudes at which a shortest-form printer switches to exponent notation (>= 1e21, < 1e-4), the extremes of float64
+	nums := []interface{}{0, 1, -1, 2147483647, -2147483648, 0.5, -1.25, 2.0, 0.1, 123456789.125, 1e15, 1e16, 1e20, 1e21, -1e21, 1.5e21, 1e-4, 1e-5, 1e-7, 1.5e-7, -1e-7, 1e100, 1.7976931348623157e308, 5e-324}
+	for _, site := range c15NumSites {
+		for _, x := range nums {
+			if !c.Owns(fmt.Sprintf("B2|%s|%v", site, x)) {
+				continue
+			}
+			c.Nontrivial()
+			cls := "integer"
+			if f, ok := x.(float64); ok {
+				cls = "fraction"
+				if f == float64(int64(f)) && f < 1e15 && f > -1e15 {
+					cls = "integral-float"
+				} else if f >= 1e21 || f <= -1e21 || (f < 1e-4 && f > -1e-4) {
+					cls = "exponent-form"
+				}
+			}
+			s := c15NumSchema(site, x)
+			attrs := map[string]string{"part": "B2", "site": site, "numclass": cls}
+			c15One(c, s, fmt.Sprintf("number site schema, %s = %v", site, x), "sdl", attrs)
+			c15One(c, s, fmt.Sprintf("number site schema, %s = %v", site, x), "addtypes", attrs)
+		}
+	}
 	// ---- C: ggqlgen -w / -e (thorough, shard 0)
 	if c.Shard == 0 {
 		c15Ggqlgen(c, bases)
@@ -413,4 +437,28 @@ func verifDirProps() string {
 		return d
 	}
 	return "/verif"
+}
+
+var c15NumSites = []string{"argument-default", "input-field-default", "directive-argument-default", "directive-use-on-type", "directive-use-on-field", "list-default", "object-default"}
+
+// c15NumSchema places the number x at the named constant site (every position is of type Float64).
+func c15NumSchema(site string, x interface{}) *sgen.Schema {
+	k := func(s string, def interface{}) interface{} {
+		if site == s {
+			return x
+		}
+		return def
+	}
+	N, L := sgen.N, sgen.L
+	return &sgen.Schema{Defs: []*sgen.Def{
+		{Kind: sgen.KDirective, Name: "dd", Locations: []string{"OBJECT", "FIELD_DEFINITION"},
+			Args: []*sgen.Arg{{Name: "x", Type: N("Float64"), HasDef: true, Default: k("directive-argument-default", 0.25)}}},
+		{Kind: sgen.KObject, Name: "Query", Dirs: []sgen.DirUse{{Name: "dd", Args: []sgen.KV{{Name: "x", Value: k("directive-use-on-type", 0.75)}}}},
+			Fields: []*sgen.Field{
+				{Name: "f", Type: N("Int"), Dirs: []sgen.DirUse{{Name: "dd", Args: []sgen.KV{{Name: "x", Value: k("directive-use-on-field", 1.75)}}}},
+					Args: []*sgen.Arg{{Name: "a", Type: N("Float64"), HasDef: true, Default: k("argument-default", 2.5)},
+						{Name: "l", Type: L(N("Float64")), HasDef: true, Default: []interface{}{3.5, k("list-default", 4.5)}},
+						{Name: "o", Type: N("In"), HasDef: true, Default: map[string]interface{}{"s": k("object-default", 5.5)}}}}}},
+		{Kind: sgen.KInput, Name: "In", Fields: []*sgen.Field{{Name: "s", Type: N("Float64"), HasDef: true, Default: k("input-field-default", 6.5)}}},
+	}}
 }
